@@ -61,14 +61,16 @@ WellFormedProj(a, e) ==
 
 (* ---- C05 value equivalence --------------------------------------------------------------------- *)
 ExactEq(e) == e.dq = e.twin
-\* both sides round twice: |dq - ref| <= 6 max(u_in,u_out) |ref| + eta (2 + |k|) (DESIGN 7.2)
+\* both sides round twice: |dq - ref| <= 6 max(u_in,u_out) |ref| + eta (2 + |V(c)| + |k|) (DESIGN 7.2): a scale that
+\* lands in the subnormal range carries an absolute error eta/2 which is multiplied by the code value
+MaxCodeOf(q) == IF q = "qfloat8_e5m2" THEN 57344 ELSE IF q \in {"qfloat8_e4m3fn", "qfloat8"} THEN 448 ELSE 128
 RescaleOK(e) ==
   LET p == MinI2(PBits(e.fmt_in), PBits(e.fmt_out))
       eta == Pow2Ceil((IF EtaExp(e.fmt_in) > EtaExp(e.fmt_out) THEN EtaExp(e.fmt_in) ELSE EtaExp(e.fmt_out)) - e.E)
   IN /\ Len(e.dq) = Len(e.twin)
      /\ \A i \in 1..Len(e.dq) :
           /\ Fin(e.dq[i]) /\ Fin(e.twin[i])
-          /\ BLe(SDist(e.dq[i], e.twin[i]), BAdd(URel(SAbs(e.twin[i]), 6, p), BMulS(eta, 300)))
+          /\ BLe(SDist(e.dq[i], e.twin[i]), BAdd(URel(SAbs(e.twin[i]), 6, p), BMul(eta, BOfInt(MaxCodeOf(e.after.qt) + 8))))
 \* re-quantizing operations: within one step of the output grid at the reference value
 \*   int8: one step = scale ; float8: max(|ref| * 2^-mbits, smallest subnormal * scale)
 RequantOK(e) ==
